@@ -31,13 +31,17 @@
 (*   RoundsEnd(rounds, overlapping)                                              *)
 (* Contract per round: mid = c + k (no reference is lost), after = c, nothing    *)
 (* is destroyed before the lender's release, exactly one destruction at the end. *)
+(* With lenderFirst = 1 the lender releases at the first quiescent point: the k   *)
+(* concurrent releases start from a count of exactly k and contain the last one:  *)
+(* the object is destroyed by them, exactly once.                                 *)
 (* `race`, `crash`, `timeout`, `malformed` events are not actions of this       *)
 (* specification: a trace containing one is rejected.                           *)
 EXTENDS Integers, Sequences, FiniteSets, TLC, Json, IOUtils, TLCExt
 
 VARIABLES l, phase, M, T, types, refs, liveOf, reported, released, creatorRefs, maxRel,
-          rk, rstart, rseen, rover     \* acquisition rounds: threads, start count, rounds judged so far, of which overlapping
-tvars == <<l, phase, M, T, types, refs, liveOf, reported, released, creatorRefs, maxRel, rk, rstart, rseen, rover>>
+          rk, rstart, rseen, rover,    \* acquisition rounds: threads, start count, rounds judged so far, of which overlapping
+          rlf, roverRel                \* lender releases first (0/1); rounds whose releases overlapped
+tvars == <<l, phase, M, T, types, refs, liveOf, reported, released, creatorRefs, maxRel, rk, rstart, rseen, rover, rlf, roverRel>>
 
 TraceLines == ndJsonDeserialize(IOEnv.TRACE)
 N == Len(TraceLines)
@@ -49,10 +53,10 @@ IsVec(v) == DOMAIN v = O
 
 Idle == /\ phase = "idle" /\ M = 0 /\ T = 0 /\ types = <<>> /\ refs = <<>> /\ liveOf = <<>>
         /\ reported = {} /\ released = {} /\ creatorRefs = <<>> /\ maxRel = <<>>
-        /\ rk = 0 /\ rstart = 0 /\ rseen = 0 /\ rover = 0
+        /\ rk = 0 /\ rstart = 0 /\ rseen = 0 /\ rover = 0 /\ rlf = 0 /\ roverRel = 0
 IdleNext == /\ phase' = "idle" /\ M' = 0 /\ T' = 0 /\ types' = <<>> /\ refs' = <<>> /\ liveOf' = <<>>
             /\ reported' = {} /\ released' = {} /\ creatorRefs' = <<>> /\ maxRel' = <<>>
-            /\ rk' = 0 /\ rstart' = 0 /\ rseen' = 0 /\ rover' = 0
+            /\ rk' = 0 /\ rstart' = 0 /\ rseen' = 0 /\ rover' = 0 /\ rlf' = 0 /\ roverRel' = 0
 TInit == l = 1 /\ Idle
 
 Start ==
@@ -63,7 +67,7 @@ Start ==
   /\ creatorRefs' = [o \in 1..Line.objs |-> 1]
   /\ maxRel' = [o \in 1..Line.objs |-> 0]
   /\ liveOf' = <<>> /\ reported' = {} /\ released' = {}
-  /\ UNCHANGED <<rk, rstart, rseen, rover>>
+  /\ UNCHANGED <<rk, rstart, rseen, rover, rlf, roverRel>>
 
 \* a thread's own books balance: it holds what it acquired and did not release
 Books ==
@@ -75,7 +79,7 @@ Books ==
   /\ liveOf' = (Line.t :> Line.live) @@ liveOf
   /\ reported' = reported \cup {Line.t}
   /\ UNCHANGED <<phase, M, T, types, released, creatorRefs, maxRel>>
-  /\ UNCHANGED <<rk, rstart, rseen, rover>>
+  /\ UNCHANGED <<rk, rstart, rseen, rover, rlf, roverRel>>
 
 \* conservation at the quiescent point; nothing may have been destroyed: every object is referenced
 Quiescent ==
@@ -84,7 +88,7 @@ Quiescent ==
   /\ \A o \in O : Line.destroyed[o] = 0 /\ Line.use[o] = refs[o]
   /\ phase' = "release"
   /\ UNCHANGED <<M, T, types, refs, liveOf, reported, released, creatorRefs, maxRel>>
-  /\ UNCHANGED <<rk, rstart, rseen, rover>>
+  /\ UNCHANGED <<rk, rstart, rseen, rover, rlf, roverRel>>
 
 CreatorDrop ==
   /\ E = "CreatorDrop" /\ phase = "release"
@@ -93,7 +97,7 @@ CreatorDrop ==
   /\ creatorRefs' = [o \in O |-> creatorRefs[o] - Line.n[o]]
   /\ refs' = [o \in O |-> refs[o] - Line.n[o]]
   /\ UNCHANGED <<phase, M, T, types, liveOf, reported, released, maxRel>>
-  /\ UNCHANGED <<rk, rstart, rseen, rover>>
+  /\ UNCHANGED <<rk, rstart, rseen, rover, rlf, roverRel>>
 
 \* a thread releases handles it owns (never more), possibly keeping some
 Release ==
@@ -105,7 +109,7 @@ Release ==
   /\ maxRel' = [o \in O |-> Max(maxRel[o], Line.maxstamp[o])]
   /\ released' = released \cup {Line.t}
   /\ UNCHANGED <<phase, M, T, types, liveOf, reported, creatorRefs>>
-  /\ UNCHANGED <<rk, rstart, rseen, rover>>
+  /\ UNCHANGED <<rk, rstart, rseen, rover, rlf, roverRel>>
 
 Final ==
   /\ E = "Final" /\ phase = "release" /\ released = 0..T
@@ -125,20 +129,25 @@ BurstVarsUnchanged == UNCHANGED <<M, T, types, refs, liveOf, reported, released,
 RoundsStart ==
   /\ E = "RoundsStart" /\ phase = "idle"
   /\ Line.threads \in 1..16 /\ Line.start \in 1..3
+  /\ Line.lenderFirst \in {0, 1}
   /\ phase' = "rounds" /\ rk' = Line.threads /\ rstart' = Line.start /\ rseen' = 0 /\ rover' = 0
+  /\ rlf' = Line.lenderFirst /\ roverRel' = 0
   /\ BurstVarsUnchanged
 \* n rounds with one outcome: every one of them must be a behaviour of the atomic model
 Round ==
   /\ E = "Round" /\ phase = "rounds" /\ Line.n >= 1 /\ Line.overlap \in {0, 1}
   /\ Line.destroyedMid = 0 /\ Line.mid = rstart + rk        \* creator's (lender's) references + the k acquired ones
-  /\ Line.destroyedAfter = 0 /\ Line.after = rstart         \* not destroyed before the lender's release
+  /\ Line.overlapRel \in {0, 1}
+  /\ IF rlf = 0
+     THEN Line.destroyedAfter = 0 /\ Line.after = rstart    \* not destroyed before the lender's release
+     ELSE Line.destroyedAfter = 1 /\ Line.after = -1        \* the k racing releases contained the last one: destroyed by them, once
   /\ Line.destroyedEnd = 1                                  \* exactly once, at the last release
-  /\ rseen' = rseen + Line.n /\ rover' = rover + Line.overlap * Line.n
-  /\ UNCHANGED <<phase, rk, rstart>>
+  /\ rseen' = rseen + Line.n /\ rover' = rover + Line.overlap * Line.n /\ roverRel' = roverRel + Line.overlapRel * Line.n
+  /\ UNCHANGED <<phase, rk, rstart, rlf>>
   /\ BurstVarsUnchanged
 RoundsEnd ==
   /\ E = "RoundsEnd" /\ phase = "rounds"
-  /\ Line.rounds = rseen /\ Line.overlapping = rover
+  /\ Line.rounds = rseen /\ Line.overlapping = rover /\ Line.overlappingRel = roverRel
   /\ l' = l + 1 /\ IdleNext
 
 Step == /\ l <= N /\ E # "Reset"
